@@ -1,67 +1,125 @@
 #!/usr/bin/env python3
-"""Runs every seeded change (seeded/<ID>-<X>/patch.diff) and every own mutant (mutants/<ID>/*.diff)
-against the quick check of its property; writes seeded/<ID>-<X>/meta.json, seeded/RESULTS.md, mutants/RESULTS.md."""
-import glob, json, os, re, subprocess, sys
-ROOT = "/verif"
-only = sys.argv[1:] 
+"""Runs seeded changes (seeded/<ID>-<X>/patch.diff) and own mutants (mutants/<ID>/*.diff) against the quick
+check of their property, each in a scratch worktree of /repo (VERIF_REPO), N at a time.
+usage: tools/seedrun.py [-j N] [names or property ids…]   (no names: everything; tables are always rewritten
+from the stored results)"""
+import glob, json, os, queue, subprocess, sys, threading
 
-def run(patch, pid):
-    ev = os.path.join(ROOT, "evidence", pid + ".json")
-    keep = open(ev).read() if os.path.exists(ev) else None
-    subprocess.run(["git", "-C", "/repo", "checkout", "--", "."])
-    a = subprocess.run(["git", "-C", "/repo", "apply", patch], stdout=subprocess.PIPE, stderr=subprocess.STDOUT, text=True)
+ROOT = "/verif"
+args = sys.argv[1:]
+J = 3
+if args and args[0] == "-j":
+    J = int(args[1])
+    args = args[2:]
+only = args
+ENV = dict(os.environ, GOFLAGS="-mod=mod", GOPROXY="off", GOSUMDB="off", GOTOOLCHAIN="local")
+
+
+def run(patch, pid, wt):
+    subprocess.run(["git", "-C", wt, "checkout", "--", "."])
+    subprocess.run(["git", "-C", wt, "clean", "-fdq"])
+    a = subprocess.run(["git", "-C", wt, "apply", patch], stdout=subprocess.PIPE, stderr=subprocess.STDOUT, text=True)
     if a.returncode != 0:
         return "patch-does-not-apply", a.stdout.strip()[:200]
-    try:
-        b = subprocess.run("cd /repo && GOFLAGS=-mod=mod GOPROXY=off go build ./...", shell=True, stdout=subprocess.PIPE, stderr=subprocess.STDOUT, text=True)
-        if b.returncode != 0:
-            return "does-not-compile", b.stdout[:200]
-        p = subprocess.run(["./check", pid, "--tier", "quick"], cwd=ROOT, stdout=subprocess.PIPE, stderr=subprocess.STDOUT, text=True, errors="replace")
-        lines = [l for l in p.stdout.splitlines() if l.startswith("failure [")]
-        first = lines[0][:300] if lines else ""
-        status = {0: "NOT DETECTED", 1: "detected", 2: "infrastructure"}.get(p.returncode, str(p.returncode))
-        return status, first
-    finally:
-        subprocess.run(["git", "-C", "/repo", "checkout", "--", "."])
-        subprocess.run(["git", "-C", "/repo", "clean", "-fdq"])
-        if keep is not None:
-            open(ev, "w").write(keep)
+    b = subprocess.run("go build ./...", shell=True, cwd=wt, env=ENV, stdout=subprocess.PIPE, stderr=subprocess.STDOUT, text=True)
+    if b.returncode != 0:
+        return "does-not-compile", b.stdout[:200]
+    p = subprocess.run(["./check", pid, "--tier", "quick"], cwd=ROOT, env=dict(ENV, VERIF_REPO=wt), stdout=subprocess.PIPE,
+                       stderr=subprocess.STDOUT, text=True, errors="replace")
+    lines = [l for l in p.stdout.splitlines() if l.startswith("failure [")]
+    first = lines[0][:300] if lines else ""
+    status = {0: "NOT DETECTED", 1: "detected", 2: "infrastructure"}.get(p.returncode, str(p.returncode))
+    if status == "infrastructure":
+        first = " ".join(l for l in p.stdout.splitlines() if l.startswith("infra:"))[:300]
+    return status, first
 
-rows = []
+
+jobs = []
 for d in sorted(glob.glob(os.path.join(ROOT, "seeded", "*-*"))):
     name = os.path.basename(d)
-    pid = name.split("-")[0]
-    if only and pid not in only and name not in only:
+    if only and name.split("-")[0] not in only and name not in only:
         continue
-    status, first = run(os.path.join(d, "patch.diff"), pid)
+    jobs.append(("seed", name, os.path.join(d, "patch.diff"), name.split("-")[0]))
+for pth in sorted(glob.glob(os.path.join(ROOT, "mutants", "*", "*.diff"))):
+    pid = os.path.basename(os.path.dirname(pth))
+    if only and pid not in only:
+        continue
+    jobs.append(("mutant", pid + "/" + os.path.basename(pth), pth, pid))
+
+q = queue.Queue()
+for j in jobs:
+    q.put(j)
+results = {}
+lock = threading.Lock()
+
+
+def worker(k):
+    wt = "/tmp/seedrun-wt-%d" % k
+    subprocess.run(["git", "-C", "/repo", "worktree", "remove", "--force", wt], stdout=subprocess.DEVNULL, stderr=subprocess.DEVNULL)
+    subprocess.run(["git", "-C", "/repo", "worktree", "add", "-q", "--detach", wt, "HEAD"], check=True)
+    try:
+        while True:
+            try:
+                kind, name, patch, pid = q.get_nowait()
+            except queue.Empty:
+                return
+            status, first = run(patch, pid, wt)
+            with lock:
+                results[(kind, name)] = (status, first)
+                print(kind, name, status, first[:120], flush=True)
+    finally:
+        subprocess.run(["git", "-C", "/repo", "worktree", "remove", "--force", wt])
+
+
+ts = [threading.Thread(target=worker, args=(k,)) for k in range(J)]
+for t in ts:
+    t.start()
+for t in ts:
+    t.join()
+
+for (kind, name), (status, first) in results.items():
+    if kind != "seed":
+        continue
+    d = os.path.join(ROOT, "seeded", name)
     am = {}
     try:
         am = json.load(open(os.path.join(d, "agent_meta.json")))
     except Exception:
         pass
+    pid = name.split("-")[0]
     meta = {"property": pid, "title": am.get("title", ""), "what_changed": am.get("what_changed", ""),
             "needs_to_manifest": am.get("needs_to_manifest", ""),
             "confirmed": "tools/seedverify.sh: patch applies to a scratch worktree of /repo HEAD, builds (also -tags verif), baseline 48 of 48, demo_test.go fails with the patch and passes without it",
-            "check_run": "git -C /repo apply patch.diff; ./check %s --tier quick; git -C /repo checkout -- ." % pid,
+            "check_run": "patch applied to a scratch worktree of /repo HEAD (equivalent to: git -C /repo apply patch.diff; ./check %s --tier quick; git -C /repo checkout -- .)" % pid,
             "result": status, "first_failure": first}
     json.dump(meta, open(os.path.join(d, "meta.json"), "w"), indent=1, ensure_ascii=False)
-    rows.append((name, status, first))
-    print(name, status, first[:120], flush=True)
-if rows and not only:
-    with open(os.path.join(ROOT, "seeded", "RESULTS.md"), "w") as f:
-        f.write("# Seeded changes (written by independent sub-agents) vs the quick checks\n\n| seed | result | first failure reported |\n|---|---|---|\n")
-        for n, s, fl in rows:
-            f.write("| %s | %s | %s |\n" % (n, s, fl.replace("|", "\\|")[:200]))
-mrows = []
-for pth in sorted(glob.glob(os.path.join(ROOT, "mutants", "*", "*.diff"))):
-    pid = os.path.basename(os.path.dirname(pth))
-    if only and pid not in only:
+mres_path = os.path.join(ROOT, "mutants", "results.json")
+mres = json.load(open(mres_path)) if os.path.exists(mres_path) else {}
+for (kind, name), (status, first) in results.items():
+    if kind == "mutant":
+        mres[name] = (status, first[:200])
+mres = {k: v for k, v in mres.items() if os.path.exists(os.path.join(ROOT, "mutants", k))}
+json.dump(mres, open(mres_path, "w"), indent=1, ensure_ascii=False)
+
+rows = []
+for d in sorted(glob.glob(os.path.join(ROOT, "seeded", "*-*"))):
+    try:
+        m = json.load(open(d + "/meta.json"))
+    except Exception:
         continue
-    status, first = run(pth, pid)
-    mrows.append((pid + "/" + os.path.basename(pth), status, first))
-    print("mutant", pid, os.path.basename(pth), status, first[:120], flush=True)
-if mrows and not only:
-    with open(os.path.join(ROOT, "mutants", "RESULTS.md"), "w") as f:
-        f.write("# Own sensitivity mutants (incl. reverts of every fix: commit) vs the quick checks\n\n| mutant | result | first failure reported |\n|---|---|---|\n")
-        for n, s, fl in mrows:
-            f.write("| %s | %s | %s |\n" % (n, s, fl.replace("|", "\\|")[:200]))
+    rows.append((os.path.basename(d), m["result"], m["first_failure"], m.get("needs_to_manifest", "")))
+with open(os.path.join(ROOT, "seeded", "RESULTS.md"), "w") as f:
+    f.write("# Seeded changes (written by independent sub-agents that saw only the property text) vs the quick checks\n\n"
+            "Round 1: <ID>-A, <ID>-B. Round 2 (agents were told round 1's ideas and asked for different ones): <ID>-C, <ID>-D.\n"
+            "Each was confirmed by tools/seedverify.sh (applies to a scratch worktree, builds with and without the verif tag, "
+            "baseline 48 of 48, demo fails with / passes without the change) and then run against ./check <ID> --tier quick.\n\n"
+            "| seed | result | first failure reported | needs (agent's words) |\n|---|---|---|---|\n")
+    for n, s_, fl, nd in rows:
+        f.write("| %s | %s | %s | %s |\n" % (n, s_, fl.replace("|", "\\|")[:160], nd.replace("|", "\\|").replace("\n", " ")[:220]))
+with open(os.path.join(ROOT, "mutants", "RESULTS.md"), "w") as f:
+    f.write("# Own sensitivity mutants (incl. the reverse of every fix: commit) vs the quick checks\n\n"
+            "Run as: tools/mut.sh mutants/<ID>/<name>.diff <ID>\n\n| mutant | result | first failure reported |\n|---|---|---|\n")
+    for k in sorted(mres):
+        f.write("| %s | %s | %s |\n" % (k, mres[k][0], mres[k][1].replace("|", "\\|")))
+bad = [(k, v) for k, v in results.items() if v[0] != "detected"]
+print("not detected / problems:", bad)
